@@ -173,6 +173,22 @@ def _tagkind_catalogue():
             out.append("R: !record\n  fields:\n    f: !map {keys: %s, values: int}\n" % v)
             out.append("R: !record\n  fields:\n    f: !union {a: %s, b: int}\n" % v)
             out.append("R: !record\n  fields:\n    f: !union %s\n" % v)
+    # reference cycles between aliases, used where a pass unwraps aliases
+    cyc = "CyA: CyB\nCyB: CyA\n"
+    for use in ["R: !record\n  fields:\n    f: !map {keys: CyA, values: int}\n", "R: !record\n  fields:\n    f: !map {keys: string, values: CyA}\n",
+                "E: !enum\n  base: CyA\n  values: [a]\n", "F: !flags\n  base: CyB\n  values: [a]\n", "R: !record\n  fields:\n    f: [CyA, int]\n",
+                "R: !record\n  fields:\n    f: [null, CyA]\n", "R: !record\n  fields:\n    f: CyA*\n", "R: !record\n  fields:\n    f: 'CyA[2]'\n",
+                "G<T>: !record\n  fields:\n    a: T\nR: !record\n  fields:\n    f: G<CyA>\n", "R: !record\n  fields:\n    f: CyA\n  computedFields:\n    c: f + 1\n",
+                "R: !record\n  fields:\n    f: CyA\n  computedFields:\n    c:\n      !switch f:\n        int i: i\n        _: 0\n",
+                "R: !record\n  fields:\n    f: CyA\n  computedFields:\n    c: f[0]\n", "R: !record\n  fields:\n    f: CyA\n  computedFields:\n    c: size(f)\n",
+                "P: !protocol\n  sequence:\n    s: !stream {items: CyA}\n", "CyC: CyC\nR: !record\n  fields:\n    f: !map {keys: CyC, values: int}\n",
+                "CyD: CyD?\nE: !enum\n  base: CyD\n  values: [a]\n"]:
+        out.append(cyc + use)
+        out.append(use + cyc)
+    # computed fields of a record written in flow style on the first line of the file (expression nodes on line 1)
+    for ex in ["a + 1", "a - (a - 1)", "v[0]", "v[5]", "size(v)", "a as float", "nope", "a + s", "m['k']", "m[1]", "-a", "a ** 2", "(a)"]:
+        out.append("R: !record {fields: {a: int, v: int*3, s: string, m: string->int}, computedFields: {c: \"%s\"}}\n" % ex.replace('"', "'"))
+        out.append("R: !record {fields: {a: int, v: int*3, s: string, m: string->int}, computedFields: {c: !switch {a: {int x: \"%s\"}}}}\n" % ex.replace('"', "'"))
     return out
 
 
@@ -270,7 +286,7 @@ def run(ctx):
             exq = '"' + ex.replace("\\", "\\\\").replace('"', '\\"') + '"'
             files = {root_rel + "/_package.yml": "namespace: %s\n" % pkg.ns,
                      root_rel + "/model.yml": ("Inner: !record\n  fields:\n    b: int\n    c: string\n"
-                                               "TE: !record\n  fields:\n    a: 'int[x, y]'\n    b: 'int[,]'\n    v: int*\n    m: string->int\n    u: [int, string]\n    o: int?\n    r: Inner\n    f: 'float[2, 3]'\n    zz: double\n"
+                                               "TE: !record\n  fields:\n    a: 'int[x, y]'\n    b: 'int[,]'\n    v: int*\n    m: string->int\n    u: [int, string]\n    o: int?\n    r: Inner\n    f: 'float[2, 3]'\n    zz: double\n    fv: int*3\n"
                                                "  computedFields:\n    k0: 1\n    k1: k0 + 1\n    k2: %s\n" % exq)}
             desc += " computed field `%s`" % ex[:80]
         elif kind == "nest":
